@@ -388,6 +388,9 @@ class Verdict:
                 c[1] += v[1]
             for k, v in s.get("counters", {}).items():
                 self.counters[k] = self.counters.get(k, 0) + v
+                if k.startswith("unsafe_") or k in ("direct_bits_portable", "normalize", "window_move", "shadow_failed"):
+                    pc = pv.setdefault("hook_counters", {})
+                    pc[k] = pc.get(k, 0) + v
             for k, v in s.get("sigs", {}).items():
                 self.sig_counts[k] = self.sig_counts.get(k, 0) + v
             for smp in s.get("samples", []):
